@@ -32,6 +32,10 @@ func c15(r *Report) {
 	r.Gate(Gate{ID: "C15.query.peer-on-list", Fn: q, Effect: read, Check: CallCheck(Fn(dag, "PAL", "Contains"), -1, IsTrue), Alt: []Check{public}})
 	r.Gate(Gate{ID: "C15.query.tx-known", Fn: q, Effect: read, Check: ErrCheck(Fn(dag, "State", "GetTransaction"))})
 	c15QueryArgs(r, q)
+	c15PALFromThisHeader(r)
+	// the answer (which may carry the payload) goes out over the connection the query arrived on — the one whose peer was
+	// just checked — not over a connection looked up by the (self-asserted) peer id
+	r.ArgIsAll("C15.query.answer-over-the-checked-connection", q, p.FnOrImpl("network/transport/grpc", "Connection", "Send"), -1, ParamV("connection"), 1)
 	cl := p.Func(v2, "protocol", "collectTransactionList")
 	r.Gate(Gate{ID: "C15.list.public-only", Fn: cl, Effect: CallEffect(Fn(dag, "State", "ReadPayload")), Check: CmpCheck("len(transaction.PAL()) == 0", token.EQL, LenV(CallV(Fn(dag, "Transaction", "PAL"), -1)), IntV(0), true)})
 	r.Own(OwnSpec{ID: "C15.own.read-payload", Op: "call State.ReadPayload", Sites: p.CallSites(p.FnOrImpl(dag, "State", "ReadPayload"), true), Min: 3, Owners: map[string]string{
@@ -346,4 +350,50 @@ func c15RetryPredicates(r *Report) {
 		}
 	}
 	r.OK(key, rule, p.Pos(gets[0].Pos()), "ByConnected, ByNodeDID(participant), ByAuthenticated", true)
+}
+
+// c15PALFromThisHeader: the participant list decryptPAL hands to the membership test is decrypted, in this call, from the
+// header it was given (no remembered list from an earlier call: a memo key that is not the whole header can collide,
+// and the list of another transaction would then admit the peer).
+func c15PALFromThisHeader(r *Report) {
+	p := r.P
+	rule := "ARG: every non-nil list returned by decryptPAL is the result of EncryptedPAL.Decrypt applied to the `encrypted` parameter in this call"
+	fn := p.Func("network/transport/v2", "protocol", "decryptPAL")
+	if fn == nil {
+		r.Lost("C15.pal.decrypted-from-this-header", rule, "decryptPAL not found")
+		return
+	}
+	key := "C15.pal.decrypted-from-this-header @ " + p.FuncName(fn)
+	dec := Fn("network/dag", "EncryptedPAL", "Decrypt")
+	n := 0
+	for _, b := range fn.Blocks {
+		ret, ok := b.Instrs[len(b.Instrs)-1].(*ssa.Return)
+		if !ok || len(ret.Results) == 0 {
+			continue
+		}
+		v := StripConv(Unspill(ret.Results[0]))
+		if IsNilConst(v) {
+			continue
+		}
+		n++
+		okv := false
+		if ex, isEx := v.(*ssa.Extract); isEx && ex.Index == 0 {
+			if call, isCall := ex.Tuple.(*ssa.Call); isCall && dec.M(call.Common()) {
+				recv := CallArg(call.Common(), -1)
+				if OriginV(ParamV("encrypted")).M(recv) || ParamV("encrypted").M(StripConv(recv)) {
+					okv = true
+				}
+			}
+		}
+		if !okv {
+			r.Bad(key, rule, p.Pos(ret.Pos()), "returns "+AccessPath(ret.Results[0], 0))
+			return
+		}
+	}
+	r.Sites += n
+	if n == 0 {
+		r.Lost(key, rule, "no non-nil return found")
+		return
+	}
+	r.OK(key, rule, p.Pos(fn.Pos()), fmt.Sprintf("%d non-nil return(s)", n), true)
 }
